@@ -1,4 +1,4 @@
-import PprofVerif.Lemmas.LegacyMap
+import PprofVerif.Lemmas.LegacyMapSection
 import PprofVerif.Model.LegacyCount
 /-!
 Helper lemmas for C14: Go count profiles — `parseGoCount (printCount d) = ok (expectedCount d)`.
@@ -302,39 +302,44 @@ theorem countLoop_tail (map : Option MapSection) (acc : List RawSample) :
     have h2 : hasPrefix (asc "---") sentinelMemoryMap = true := by decide
     simp [tailLines, countLoop, h1, h2]
 
-theorem parseGoCount_printCount (d : CountDoc) (h : d.wf = true) : parseGoCount (printCount d) = .ok (expectedCount d) := by
+theorem splitLines_printCount (d : CountDoc) (h : d.wf = true) : splitLines (printCount d) = d.lines := by
   simp only [CountDoc.wf, Bool.and_eq_true, List.all_eq_true] at h
   obtain ⟨⟨⟨⟨hpre, hname⟩, hrecs⟩, hpost⟩, hmap⟩ := h
   have hmap' : ∀ m, d.map = some m → m.wf = true := by
     intro m hm; rw [hm] at hmap; exact hmap
-  -- lines survive printing
-  have hlines : splitLines (printCount d) = d.lines := by
-    apply splitLines_unlines
-    intro l hl
-    simp only [CountDoc.lines, CountDoc.recLines, List.mem_append, List.mem_singleton, List.mem_flatMap] at hl
-    rcases hl with (((hl | hl) | ⟨r, hr, hl⟩) | hl) | hl
-    · exact LineOK_fillers (List.all_eq_true.2 hpre) l hl
+  apply splitLines_unlines
+  intro l hl
+  simp only [CountDoc.lines, CountDoc.recLines, List.mem_append, List.mem_singleton, List.mem_flatMap] at hl
+  rcases hl with (((hl | hl) | ⟨r, hr, hl⟩) | hl) | hl
+  · exact LineOK_fillers (List.all_eq_true.2 hpre) l hl
+  · subst hl
+    have hn : LineOK d.name := by
+      apply LineOK_of_isPrint
+      intro b hb
+      simp only [countNameOK, Bool.and_eq_true, List.all_eq_true] at hname
+      exact (hname.1 b hb).1
+    have hlit : LineOK (asc " profile: total ") := by decide
+    simp only [CountDoc.headerLine]
+    lineok
+    exact ⟨hn, hlit⟩
+  · have hw := hrecs r hr
+    simp only [CountRec.wf, Bool.and_eq_true, List.all_eq_true] at hw
+    rcases hl with hl | hl
+    · exact LineOK_fillers (List.all_eq_true.2 hw.1.1.1) l hl
     · subst hl
-      have hn : LineOK d.name := by
-        apply LineOK_of_isPrint
-        intro b hb
-        simp only [countNameOK, Bool.and_eq_true, List.all_eq_true] at hname
-        exact (hname.1 b hb).1
-      have hlit : LineOK (asc " profile: total ") := by decide
-      simp only [CountDoc.headerLine]
+      have hlit : LineOK (asc " @") := by decide
+      simp only [CountRec.print]
       lineok
-      exact ⟨hn, hlit⟩
-    · have hw := hrecs r hr
-      simp only [CountRec.wf, Bool.and_eq_true, List.all_eq_true] at hw
-      rcases hl with hl | hl
-      · exact LineOK_fillers (List.all_eq_true.2 hw.1.1.1) l hl
-      · subst hl
-        have hlit : LineOK (asc " @") := by decide
-        simp only [CountRec.print]
-        lineok
-        exact hlit
-    · exact LineOK_fillers (List.all_eq_true.2 hpost) l hl
-    · exact LineOK_tailLines LineOK_sentinelMemoryMap hmap' l hl
+      exact hlit
+  · exact LineOK_fillers (List.all_eq_true.2 hpost) l hl
+  · exact LineOK_tailLines LineOK_sentinelMemoryMap hmap' l hl
+
+theorem parseGoCount_printCount (d : CountDoc) (h : d.wf = true) : parseGoCount (printCount d) = .ok (expectedCount d) := by
+  have hlines := splitLines_printCount d h
+  simp only [CountDoc.wf, Bool.and_eq_true, List.all_eq_true] at h
+  obtain ⟨⟨⟨⟨hpre, hname⟩, hrecs⟩, hpost⟩, hmap⟩ := h
+  have hmap' : ∀ m, d.map = some m → m.wf = true := by
+    intro m hm; rw [hm] at hmap; exact hmap
   unfold parseGoCount
   rw [hlines]
   unfold parseGoCountLines CountDoc.lines
